@@ -133,14 +133,20 @@ class Impl:
         self.base_rng = S.RNG
         self.Rec = make_rng_classes(S, S.RNG)
 
-    def randomize(self, seed, params, script=None):
-        """-> dict(dump, services, floats, choices, orders, error)"""
+    def randomize(self, seed, params, script=None, argv=None):
+        """-> dict(dump, services, floats, choices, orders, error); with `argv` the server is built the way the command
+        line `gallia script vecu rng ...` builds it (real parser -> RngVirtualECUConfig -> RngVirtualECU._server())"""
         S = self.S
         rec = Recorder(script)
         out = {"error": None}
         try:
-            P = S.RandomUDSServer.RandomnessParameters(**params)
-            srv = S.RandomUDSServer(seed, P)
+            if argv is not None:
+                srv, _cfg = T.cli_build(argv)
+                P = srv.randomness_parameters
+                out["seed"] = srv.seed
+            else:
+                P = S.RandomUDSServer.RandomnessParameters(**params)
+                srv = S.RandomUDSServer(seed, P)
             S.RNG = self.Rec
             self.Rec.rec = rec
             try:
@@ -331,6 +337,75 @@ def mk_params(lists, probs, extra=None):
 
 
 # ------------------------------------------------------------------------------------------------------------
+# command lines of `gallia script vecu rng` (the list options as TEXT, as a user types them)
+# ------------------------------------------------------------------------------------------------------------
+CLI_HEAD = ["script", "vecu", "rng", "unix-lines:///tmp/vecu.sock", "--no-volatile-info"]
+BATS_SERVICES = ["DiagnosticSessionControl", "EcuReset", "ReadDataByIdentifier", "WriteDataByIdentifier", "RoutineControl",
+                 "SecurityAccess", "ReadMemoryByAddress", "WriteMemoryByAddress", "RequestDownload", "RequestUpload",
+                 "TesterPresent", "ReadDTCInformation", "ClearDiagnosticInformation", "InputOutputControlByIdentifier"]
+CLI_LIST_OPTS = {"--mandatory-sessions": "mandatory_sessions", "--optional-sessions": "optional_sessions",
+                 "--mandatory-services": "mandatory_services", "--optional-services": "optional_services"}
+
+
+def cli_fixed():
+    """tests/bats/run_bats.sh, explicit optional lists, defaults"""
+    return [
+        ("cli:bats", CLI_HEAD + ["--seed", "3", "--mandatory-sessions", "1", "2", "3", "--mandatory-services"] + BATS_SERVICES),
+        ("cli:explicit-optionals", CLI_HEAD + ["--seed", "7", "--mandatory-sessions", "1", "3", "--optional-sessions", "0x40", "0x41",
+                                               "2", "5", "0x60", "0x7e", "--optional-services", "ReadDataByIdentifier", "TesterPresent",
+                                               "EcuReset", "SecurityAccess", "RoutineControl", "CommunicationControl",
+                                               "--p-session", "0.5", "--p-service", "0.6", "--p-sub-function", "0.1",
+                                               "--p-identifier", "0.5", "--p-correct-payload-format", "0.8"]),
+        ("cli:defaults", CLI_HEAD + ["--seed", "11"]),
+        ("cli:seed-0", CLI_HEAD + ["--seed", "0", "--optional-sessions", "2", "3", "--p-session", "0.6"]),
+    ]
+
+
+def cli_random(rng):
+    from gallia.services.uds.core.constants import UDSIsoServices
+
+    names = [s.name for s in UDSIsoServices if s.name != "NegativeResponse"]
+    num = lambda x: rng.choice([str(x), hex(x), f"0x{x:02X}"])  # noqa: E731
+    argv = CLI_HEAD + ["--seed", str(rng.choice([rng.randrange(100), rng.randrange(2 ** 40), 0]))]
+    ms = [1] + rng.sample(range(2, 0x7F), rng.choice([1, 2, 4]))
+    rng.shuffle(ms)
+    argv += ["--mandatory-sessions"] + [num(x) for x in ms]
+    if rng.random() < 0.8:
+        os_ = rng.sample(range(2, 0x7F), rng.choice([2, 3, 6, 12]))
+        argv += ["--optional-sessions"] + [num(x) for x in os_]
+    msv = ["DiagnosticSessionControl"] + rng.sample([n for n in names if n != "DiagnosticSessionControl"], rng.choice([1, 3, 6]))
+    rng.shuffle(msv)
+    argv += ["--mandatory-services"] + msv
+    if rng.random() < 0.8:
+        argv += ["--optional-services"] + rng.sample(names, rng.choice([2, 4, 9]))
+    argv += ["--p-session", rng.choice(["0.05", "0.3", "0.8"]), "--p-service", rng.choice(["0.2", "0.6"]),
+             "--p-identifier", rng.choice(["0.005", "0.5"])]
+    return ("cli:random", argv)
+
+
+def cli_expected(argv):
+    """what the user wrote: seed and the four lists, in the order given"""
+    from gallia.services.uds.core.constants import UDSIsoServices
+
+    out = {}
+    i = 0
+    while i < len(argv):
+        a = argv[i]
+        if a == "--seed":
+            out["seed"] = int(argv[i + 1], 0)
+        if a in CLI_LIST_OPTS:
+            vals = []
+            j = i + 1
+            while j < len(argv) and not argv[j].startswith("--"):
+                v = argv[j]
+                vals.append(int(UDSIsoServices[v]) if v in UDSIsoServices.__members__ else int(v, 0))
+                j += 1
+            out[CLI_LIST_OPTS[a]] = vals
+        i += 1
+    return out
+
+
+# ------------------------------------------------------------------------------------------------------------
 # request histories for the transcript comparison
 # ------------------------------------------------------------------------------------------------------------
 def make_history(rng, services, max_sessions, per_session):
@@ -444,7 +519,7 @@ def check_c1(ctx, impl, cases):
     """cases: list of dict(label, seed, params, script|None). Returns impl results."""
     batch, index, results = [], [], []
     for c in cases:
-        r = impl.randomize(c["seed"], c["params"], c.get("script"))
+        r = impl.randomize(c.get("seed"), c.get("params"), c.get("script"), c.get("argv"))
         results.append(r)
         if r["error"] is not None:
             index.append(None)
@@ -453,6 +528,17 @@ def check_c1(ctx, impl, cases):
         lists = ([int(x) for x in P.mandatory_sessions], [int(x) for x in P.optional_sessions],
                  [int(x) for x in P.mandatory_services], [int(x) for x in P.optional_services])
         probs = (P.p_session, P.p_service, P.p_sub_function)
+        if c.get("argv") is not None:
+            exp = cli_expected(c["argv"])
+            got = {"seed": r.get("seed"), "mandatory_sessions": lists[0], "optional_sessions": lists[1],
+                   "mandatory_services": lists[2], "optional_services": lists[3]}
+            for fld, v in exp.items():
+                if got[fld] != v:
+                    ctx.disagree("c1:cli-arguments-changed:" + fld,
+                                 f"the command line gives {fld} = {v} but RandomUDSServer receives {got[fld]}: the arguments of the "
+                                 "model are not the arguments the user wrote (order / repetitions changed on the way)",
+                                 {"kind": "c1", "argv": c["argv"], "seed": None, "params": None, "script": None},
+                                 impl=got[fld], model=v, spec_violated=False, site="RngVirtualECUConfig / cli parser")
         if c.get("script") is not None:
             bools = [v == 0.0 for v in r["floats"]]
             ml = model_lines(lists, probs, r["orders"], r["choices"], bools=bools, impl_dump=r["dump"])
@@ -464,7 +550,10 @@ def check_c1(ctx, impl, cases):
     for c, r, ix in zip(cases, results, index):
         ctx.ev()
         ctx.kind(c["label"])
-        case = {"kind": "c1", "seed": c["seed"], "params": c["params"], "script": c.get("script")}
+        case = {"kind": "c1", "seed": c.get("seed"), "params": c.get("params"), "script": c.get("script")}
+        if c.get("argv") is not None:
+            case["argv"] = c["argv"]
+            c["seed"] = r.get("seed", c.get("seed"))
         if ix is None:
             ctx.disagree("c1:randomize-raises:" + r["error"].split(":")[0],
                          "RandomUDSServer.randomize raises on well-formed arguments: " + r["error"], case,
@@ -477,7 +566,8 @@ def check_c1(ctx, impl, cases):
         dump = r["dump"]
         n_sess = dump.count(";") + 1 if dump != "-" else 0
         if n_sess >= 2 or dump.count(",") >= 1:
-            ctx.nontrivial((c["seed"], json.dumps(c["params"], sort_keys=True), json.dumps(c.get("script"))))
+            ctx.nontrivial((c.get("seed"), json.dumps(c.get("params"), sort_keys=True), json.dumps(c.get("script")),
+                            json.dumps(c.get("argv"))))
         ctx.kind(f"sessions:{'1' if n_sess == 1 else '2-4' if n_sess <= 4 else '5-20' if n_sess <= 20 else '21+'}",
                  f"choices:{min(len(r['choices']), 3)}{'+' if len(r['choices']) > 3 else ''}",
                  f"levels:{min(len(r['orders']), 4)}",
@@ -588,7 +678,7 @@ def seeded_cases(ctx, ALL):
     return cases
 
 
-def check_c2(ctx, impl, c1_cases, c1_results):
+def check_c2(ctx, impl, c1_cases, c1_results, cli_cases=()):
     rng = ctx.rng
     ALL = all_services()
     # configurations: defaults for a few seeds, dense models, models from random arguments
@@ -606,16 +696,22 @@ def check_c2(ctx, impl, c1_cases, c1_results):
     for c in picked[: ctx.pick(14, 60)]:
         cfgs.append({"seed": c["seed"], "params": {**c["params"], "p_identifier": rng.choice([0.005, 0.5, 1.0]),
                                                    "p_correct_payload_format": rng.choice([0.1, 0.9])}})
+    # the same through the command line: real parser -> RngVirtualECUConfig -> RngVirtualECU._server()
+    for _lab, argv in [x for x in cli_cases]:
+        cfgs.append({"argv": argv})
     # histories from the in-process model
     S = impl.S
     for cfg in cfgs:
-        r = impl.randomize(cfg["seed"], cfg["params"])
+        r = impl.randomize(cfg.get("seed"), cfg.get("params"), None, cfg.get("argv"))
         cfg["history"] = make_history(rng, r.get("services", {}), ctx.pick(4, 8), ctx.pick(24, 60)) if r["error"] is None else ["3e00"]
     envs = ENVS[: ctx.pick(4, 8)]
     outs = run_children(cfgs, envs)
     # this process is one more environment
     here = {"defaults": T.defaults_fingerprint(S), "runs": []}
     for cfg in cfgs:
+        if "argv" in cfg:  # command lines are compared between the child processes only (their hash seeds are fixed)
+            here["runs"].append(None)
+            continue
         try:
             here["runs"].append(T.transcript(S, cfg, clock_base=5.0e8))
         except Exception as e:  # noqa: BLE001
@@ -626,9 +722,11 @@ def check_c2(ctx, impl, c1_cases, c1_results):
     ref = outs_all[0]
     n_req = sum(len(c["history"]) for c in cfgs)
     ctx.notes["c2"] = {"configurations": len(cfgs), "requests_per_environment": n_req, "environments": len(envs_all),
-                       "positive_answers_in_reference": sum(1 for r in ref["runs"] for a in r.get("answers", [])
+                       "command_lines": sum(1 for c in cfgs if "argv" in c),
+                       "positive_answers_in_reference": sum(1 for r in ref["runs"] if r for a in r.get("answers", [])
                                                             if a not in ("none",) and not a.startswith("7f") and not a.startswith("EXC")),
-                       "exceptions_in_reference": sum(1 for r in ref["runs"] for a in r.get("answers", []) if a.startswith("EXC"))}
+                       "exceptions_in_reference": sum(1 for r in ref["runs"] if r for a in r.get("answers", []) if a.startswith("EXC"))}
+    first_child = next((o for o in outs if "error" not in o), None)
     for env, o in zip(envs_all[1:], outs_all[1:]):
         envd = {"PYTHONHASHSEED": env[0], "import_order": env[1], "clock_base": env[2]}
         if "error" in o:
@@ -643,10 +741,30 @@ def check_c2(ctx, impl, c1_cases, c1_results):
                          f"default RandomnessParameters.{fld} differs between processes (argument defaults are part of 'the same arguments')",
                          {"kind": "c2", "env": envd, "configs": []}, impl=o["defaults"][fld], model=ref["defaults"][fld],
                          spec_violated=True, site="RandomUDSServer.RandomnessParameters")
-        for cfg, a, b in zip(cfgs, ref["runs"], o["runs"]):
+        for k, (cfg, a, b) in enumerate(zip(cfgs, ref["runs"], o["runs"])):
+            if "argv" in cfg:
+                if first_child is None or o is first_child:
+                    continue
+                a = first_child["runs"][k]
+                ctx.kind("xproc:command-line")
             ctx.traces_validated += 1
             if a == b:
                 continue
+            if "argv" in cfg and "error" not in a and "error" not in b and a.get("params") != b.get("params"):
+                fld = next(f for f in a["params"] if a["params"][f] != b["params"].get(f))
+                visible = a.get("model") != b.get("model") or a.get("answers") != b.get("answers")
+                comp = diff_component(a.get("model", "-"), b.get("model", "-"))
+                ctx.disagree("c2:cli-arguments-differ:" + fld,
+                             f"the same command line hands a different {fld} to RandomUDSServer in another process "
+                             f"(PYTHONHASHSEED {envs[0][0]} vs {env[0]})"
+                             + (f"; the models differ ({comp})" if comp != "same" else
+                                ("; the answers differ" if visible else "; model and answers happen to coincide")),
+                             {"kind": "c2", "env": envd, "configs": [{**cfg, "history": [] if comp != "same" else cfg["history"]}]},
+                             impl={fld: b["params"][fld], "model": b.get("model", "")[:400]},
+                             model={fld: a["params"][fld], "model": a.get("model", "")[:400]}, spec_violated=visible,
+                             site="RngVirtualECUConfig / cli parser")
+                if visible:
+                    continue
             if a.get("model") != b.get("model") or "error" in a or "error" in b:
                 comp = diff_component(a.get("model", "-"), b.get("model", "-")) if "error" not in a and "error" not in b else "error"
                 ctx.disagree("c2:model-differs:" + comp, "same seed and arguments give a different model in another process",
@@ -851,9 +969,11 @@ def run(ctx):
                 "the resulting model has >= 2 sessions or >= 2 services. C2: one evaluation = one (configuration, environment) transcript")
     check_pyset(ctx)
     check_default_optional_services(ctx, impl)
+    cli_cases = cli_fixed() + [cli_random(ctx.rng) for _ in range(ctx.pick(6, 40))]
     cases = scripted_cases(ctx) + seeded_cases(ctx, ALL)  # small universes first: first disagreement per key is small
+    cases += [{"label": lab, "argv": argv} for lab, argv in cli_cases]
     results = check_c1(ctx, impl, cases)
-    ok = [(c, r) for c, r in zip(cases, results) if r["error"] is None and c.get("script") is None]
+    ok = [(c, r) for c, r in zip(cases, results) if r["error"] is None and c.get("script") is None and c.get("argv") is None]
     if ok:
         c, r = ok[0]
         ctx.sample({"seed": c["seed"], "params": c["params"], "draws": len(r["floats"]), "orders": r["orders"], "model": r["dump"][:300]})
@@ -865,7 +985,7 @@ def run(ctx):
             ctx.disagree("c2:model-differs:in-process", "two servers with the same seed and arguments differ within one process",
                          {"kind": "c1", "seed": c["seed"], "params": c["params"], "script": None}, impl=r2.get("dump"), model=r["dump"],
                          spec_violated=True, site="RandomUDSServer.randomize")
-    check_c2(ctx, impl, cases, results)
+    check_c2(ctx, impl, cases, results, cli_cases)
 
 
 def replay(ctx, case):
@@ -880,7 +1000,7 @@ def replay(ctx, case):
         here = [T.transcript(impl.S, cfg, clock_base=5.0e8) for cfg in cfgs]
         print(json.dumps({"this_process": here, "recorded_env": outs[0], "hashseed0": outs[1]}, indent=1))
         return any(o.get("runs") != here for o in outs)
-    r = impl.randomize(c["seed"], c["params"], c.get("script"))
+    r = impl.randomize(c.get("seed"), c.get("params"), c.get("script"), c.get("argv"))
     if r["error"]:
         print("implementation raises:", r["error"])
         return True
